@@ -5,7 +5,8 @@
    compute the same outputs, the same flat state words, the same cursor and the same access trace for
    every well-formed program, every start time and every run length.  In general (any program, wf or
    not) the WASM discipline computes the same as the VM discipline whenever the latter does not fault;
-   they differ exactly on cursor under/overflow (finding F2). *)
+   they can differ only where the VM discipline faults (out-of-range access / cursor underflow), which
+   happens only outside the wf fragment. *)
 From Coq Require Import List ZArith NArith Bool.
 From Mimium Require Import StateTree.Model Lmmm.Syntax Lmmm.Ref Lmmm.Compile Lmmm.Machine Lmmm.Wf
   Lmmm.Spec Lmmm.Agree Lmmm.Examples.
@@ -24,11 +25,12 @@ Theorem C01_agree_unless_fault : forall p cp t0 rows w,
   mach_run WasmD p cp t0 rows (mkM w 0%N []) = mach_run VmD p cp t0 rows (mkM w 0%N []).
 Proof. exact agree_unless_fault. Qed.
 
-(* they differ exactly on cursor under/overflow (finding F2):
-   fn cnt(i){self+i} fn dsp(){ if (cnt(1)) cnt(10) else cnt(100) } faults on the VM, plays on WASM *)
-Theorem C01_f2_differs : exists p cp,
-  compile p = Some cp /\ In None (mach_run VmD p cp 0%Z [[]] m0) /\ ~ In None (mach_run WasmD p cp 0%Z [[]] m0).
-Proof. exact f2_differs. Qed.
+(* outside wf the disciplines can differ (a redefined function name: a call site compiled as stateless
+   runs a stateful body without storage — the VM faults, WASM grows the storage and plays) *)
+Theorem C01_differ_outside_wf : exists p cp,
+  compile p = Some cp /\ wf_prog p = false /\
+  In None (mach_run VmD p cp 0%Z [[]] m0) /\ ~ In None (mach_run WasmD p cp 0%Z [[]] m0).
+Proof. exact disciplines_differ_outside_wf. Qed.
 
 (* satisfiability of the hypotheses *)
 Example C01_ex_wf : wf_prog ex_prog2 = true.
